@@ -2,14 +2,15 @@
     lemmas about the closed helpers (everything except the tracing phases and the interpreter).
 
     [Imk Ls Qs m]: the buffer [pc m] is duplicate-free with an exact cached size, the mark of
-    every heap object says exactly which collector list it is linked in ([PC] <-> [pc m],
-    [Ls] <-> the list [Ls], [Qs] <-> the list [Qs], [NM] otherwise), the byte counter is the sum
-    of the sizes of the allocated boxes, no counter ever underflowed.
+    every heap object says which collector list it is linked in (mark PC <-> member of [pc m],
+    members of the list [Ls] are marked IL and an IL-marked box outside [Ls] has been freed,
+    mark IQ <-> member of [Qs], NM otherwise), a box that was never allocated is un-marked, the
+    byte counter is the sum of the sizes of the allocated boxes, no counter ever underflowed.
     [Ibuf A m := Imk A [] m] + "a non-empty active list only exists during a collection".
 
     The invariant is stated modulo [dirty m]: the model has logged a use-after-free, a double
-    free or a failed debug assertion (events the companion invariants I-count/I-ref exclude).
-    Without them the statement is not inductive on its own: see the report in Buf.v. *)
+    free, a failed debug assertion or a fuel exhaustion (events that the companion invariants
+    I-count / I-ref exclude).  See the header of Buf.v for what is and is not covered. *)
 From Coq Require Import NArith Bool List Lia.
 From stdpp Require Import base list option sets.
 From RecordUpdate Require Import RecordSet.
@@ -32,7 +33,7 @@ Proof. repeat split. Qed.
 
 (** ** Events *)
 Definition badk (b : bad) : bool :=
-  match b with UseAfterFree | DoubleFree | AssertFail => true | _ => false end.
+  match b with UseAfterFree | DoubleFree | AssertFail | Fuel => true | _ => false end.
 Definition bad_ev (e : event) : bool := match e with EBad b _ => badk b | _ => false end.
 Definition uf_ev (e : event) : bool := match e with EBad Underflow _ => true | _ => false end.
 
@@ -592,6 +593,9 @@ Section Buf.
   Lemma inc_tc_mark h h' : inc_tc h = Some h' -> h_mark h' = h_mark h.
   Proof. unfold inc_tc. destruct (h_tc h =? max_rc); [discriminate|]. intros [= <-]. reflexivity. Qed.
 
+  Lemma inc_rc_default_mark h : h_mark (default h (inc_rc h)) = h_mark h.
+  Proof. destruct (inc_rc h) as [h'|] eqn:E; [apply (inc_rc_mark _ _ E)|reflexivity]. Qed.
+
   Lemma mild_uhdr_const o h m :
     h_mark h = h_mark (hdr_of m o) -> mild m (uhdr o (fun _ => h) m).
   Proof.
@@ -798,7 +802,56 @@ Ltac brk :=
            end
          end.
 
-Ltac mild_core_tac := solve [apply mild_core; repeat split; reflexivity].
+
+(** setters of fields the invariant does not read *)
+Section Setters.
+  Context (K : conf).
+  Lemma mild_set_st_finalizing g m : mild K m (set st_finalizing g m).
+  Proof. apply mild_core. repeat split; reflexivity. Qed.
+  Lemma mild_set_st_dropping g m : mild K m (set st_dropping g m).
+  Proof. apply mild_core. repeat split; reflexivity. Qed.
+  Lemma mild_set_cf_thr g m : mild K m (set cf_thr g m).
+  Proof. apply mild_core. repeat split; reflexivity. Qed.
+  Lemma mild_set_cf_pnum g m : mild K m (set cf_pnum g m).
+  Proof. apply mild_core. repeat split; reflexivity. Qed.
+  Lemma mild_set_cf_pexp g m : mild K m (set cf_pexp g m).
+  Proof. apply mild_core. repeat split; reflexivity. Qed.
+  Lemma mild_set_cf_buf g m : mild K m (set cf_buf g m).
+  Proof. apply mild_core. repeat split; reflexivity. Qed.
+  Lemma mild_set_cf_auto g m : mild K m (set cf_auto g m).
+  Proof. apply mild_core. repeat split; reflexivity. Qed.
+  Lemma mild_set_slots g m : mild K m (set slots g m).
+  Proof. apply mild_core. repeat split; reflexivity. Qed.
+  Lemma mild_set_wslots g m : mild K m (set wslots g m).
+  Proof. apply mild_core. repeat split; reflexivity. Qed.
+  Lemma mild_set_cslots g m : mild K m (set cslots g m).
+  Proof. apply mild_core. repeat split; reflexivity. Qed.
+  Lemma mild_set_values g m : mild K m (set values g m).
+  Proof. apply mild_core. repeat split; reflexivity. Qed.
+  Lemma mild_set_bag g m : mild K m (set bag g m).
+  Proof. apply mild_core. repeat split; reflexivity. Qed.
+  Lemma mild_set_wparam g m : mild K m (set wparam g m).
+  Proof. apply mild_core. repeat split; reflexivity. Qed.
+  Lemma mild_set_fuse_trace g m : mild K m (set fuse_trace g m).
+  Proof. apply mild_core. repeat split; reflexivity. Qed.
+  Lemma mild_set_fuse_fin g m : mild K m (set fuse_fin g m).
+  Proof. apply mild_core. repeat split; reflexivity. Qed.
+  Lemma mild_set_fuse_drop g m : mild K m (set fuse_drop g m).
+  Proof. apply mild_core. repeat split; reflexivity. Qed.
+  Lemma mild_set_fuse_action g m : mild K m (set fuse_action g m).
+  Proof. apply mild_core. repeat split; reflexivity. Qed.
+  Lemma mild_set_fuse_closure g m : mild K m (set fuse_closure g m).
+  Proof. apply mild_core. repeat split; reflexivity. Qed.
+  Lemma mild_set_panicking g m : mild K m (set panicking g m).
+  Proof. apply mild_core. repeat split; reflexivity. Qed.
+  Lemma mild_set_next_aid g m : mild K m (set next_aid g m).
+  Proof. apply mild_core. repeat split; reflexivity. Qed.
+  Lemma mild_set_dead g m : mild K m (set dead g m).
+  Proof. apply mild_core. repeat split; reflexivity. Qed.
+End Setters.
+Create HintDb mildset discriminated.
+#[export] Hint Resolve mild_set_st_finalizing mild_set_st_dropping mild_set_cf_thr mild_set_cf_pnum mild_set_cf_pexp mild_set_cf_buf mild_set_cf_auto mild_set_slots mild_set_wslots mild_set_cslots mild_set_values mild_set_bag mild_set_wparam mild_set_fuse_trace mild_set_fuse_fin mild_set_fuse_drop mild_set_fuse_action mild_set_fuse_closure mild_set_panicking mild_set_next_aid mild_set_dead : mildset.
+Ltac mild_core_tac := solve [auto 1 with mildset nocore].
 
 #[export] Hint Resolve mild_refl : mild.
 #[export] Hint Extern 2 (mild ?K _ (set _ _ ?X)) =>
@@ -821,7 +874,8 @@ Ltac mild_core_tac := solve [apply mild_core; repeat split; reflexivity].
 #[export] Hint Extern 3 (mild _ _ (upd _ _ _)) =>
   (eapply mild_trans; [|solve [apply mild_upd; intros ?; repeat split; reflexivity]]) : mild.
 #[export] Hint Extern 3 (mild _ _ (uhdr _ _ _)) =>
-  (eapply mild_trans; [|solve [apply mild_uhdr; intros ?; reflexivity]]) : mild.
+  (eapply mild_trans;
+   [|solve [apply mild_uhdr; intros ?; first [reflexivity|apply inc_rc_default_mark]]]) : mild.
 
 Ltac mild_solve := solve [eauto 40 with mild].
 
